@@ -50,6 +50,23 @@ def is_table(v):
     return isinstance(v, list) and len(v) in (2, 3) and v[0] == 'T'
 
 
+def is_scalar_spec(v):
+    return isinstance(v, list) and len(v) == 3 and v[0] == 'S'
+
+
+def build_scalar(v):
+    """a non-table input that is itself a container or a callable: ['S', kind, payload] -> tuple / list / range / function / None.
+    It is one value, broadcast to every row like any other scalar, whatever its length"""
+    if not is_scalar_spec(v):
+        return v
+    kind, x = v[1], v[2]
+    return dict(tuple=lambda: tuple(x), list=lambda: list(x), range=lambda: range(x), func=lambda: dict(len=len, str=str)[x], none=lambda: None)[kind]()
+
+
+def build_scalars(inputs):
+    return {n: build_scalar(v) for n, v in inputs.items()}
+
+
 def expected_join(on, inputs, defaults):
     """-> sorted list of (key tuple, {name: value})"""
     tables = {n: {kt(k): v for k, v in spec[1]} for n, spec in inputs.items() if is_table(spec)}
@@ -99,7 +116,7 @@ def check_case(c, case):
     on, cache = case['on'], case.get('cache') or []
     fdefaults, omit, opts = case.get('fdefaults') or {}, case.get('omit') or [], dict(case.get('opts') or {})
     names = list(case['inputs'])                                                 # the parameters of f
-    inputs = {n: v for n, v in case['inputs'].items() if n not in omit}          # what the call passes
+    inputs = build_scalars({n: v for n, v in case['inputs'].items() if n not in omit})   # what the call passes
     given = case.get('defaults')
     jdefaults = dict(given or {})                                                # join(inputs, on, defaults): no function in sight
     defaults = dict(fdefaults) if given is None else dict(given)                 # perdictable: None -> the function's own defaults
@@ -190,7 +207,7 @@ def run_chunk(cases):
     c = Collector('C20', 'chunk')
     for case in cases:
         check_case(c, case)
-        exp = expected_join(case['on'], {n: v for n, v in case['inputs'].items() if n not in (case.get('omit') or [])},
+        exp = expected_join(case['on'], build_scalars({n: v for n, v in case['inputs'].items() if n not in (case.get('omit') or [])}),
                             (case.get('fdefaults') or {}) if case.get('defaults') is None else case['defaults'])
         c.case(repr(case), nontrivial=bool(exp), sample=None)
     return dict(evaluations=c.evaluations, distinct=list(c.distinct), violations=c.violations)
@@ -320,6 +337,27 @@ def fn_default_cases(rng, quick):
         yield from decorate(rng, dict(on=on, inputs=inputs, defaults=mode, fdefaults={n: 'f' + n.upper() for n in fsub}, omit=omit), quick)
 
 
+CONTAINER_SCALARS = [['S', 'tuple', [7, 8]], ['S', 'tuple', [7, 8, 9]], ['S', 'tuple', []], ['S', 'tuple', [7]], ['S', 'list', [7, 8]], ['S', 'list', [7]],
+                     ['S', 'list', [7, 8, 9, 6]], ['S', 'range', 2], ['S', 'range', 3], ['S', 'func', 'len'], ['S', 'none', 0]]
+
+
+def container_scalar_cases(rng, quick):
+    """non-table inputs that are themselves containers or callables (a tuple of weights, a list, a range, a function, None): one value, broadcast to
+    every row.  The lengths 1..4 meet joins with exactly that many rows and with other row counts"""
+    for on in (['key'], ['j', 'k']):
+        subsets = [(0,), (0, 1), (1, 3), (0, 1, 2), (0, 1, 2, 3)] if on == ['key'] else [(0, 1), (0, 1, 2)]
+        for sc in CONTAINER_SCALARS:
+            for sub in subsets:
+                for defaults in (None, {'a': 'defA'}):
+                    yield dict(on=on, inputs={'a': table_spec(rng, on, 'a', sub), 'b': sc}, defaults=defaults, cache=[])
+                if len(sub) == 2:
+                    yield dict(on=on, inputs={'b': sc, 'a': table_spec(rng, on, 'a', sub), 'c': table_spec(rng, on, 'c', (0, 1, 3))}, defaults=None, cache=[])
+                    K = [keyspace(on)[i] for i in sub]
+                    yield dict(on=on, inputs={'a': table_spec(rng, on, 'a', sub), 'b': sc}, defaults=None, cache=[[K[0], 'past'], [K[1], 'future']])
+            yield dict(on=on, inputs={'b': sc, 'c': 'C'}, defaults=None, cache=[])
+            yield dict(on=on, inputs={'b': sc}, defaults={}, cache=[])
+
+
 def run(tier, seed):
     rng = random.Random(seed)
     quick = tier == 'quick'
@@ -332,12 +370,14 @@ def run(tier, seed):
                   'out of the call, none a table; x defaults=None (the function defaults name the outer-joined inputs), defaults={} (none is), explicit non-empty subsets (every one when both are tables, %s otherwise); seeded cases with 2-4 '
                   'parameters on one or two key columns; a third of the cases with one more keyword that must change nothing (renames={}, if_none True/False/["data"], output_is_input '
                   'False/[]/["data"], include_inputs) or with the value column of a table named data / arbitrarily / picked by renames=; a fifth followed by a variant with previously computed keys. '
-                  'Non-trivial: at least one joined row; distinct by case'
+                  'Non-table inputs that are containers or callables (tuples of 0-3, lists of 1-4, ranges, a function, None) next to one or two tables of 1-4 rows, with and without a default / '
+                  'previously computed keys, and with no table at all: one value broadcast to every row. Non-trivial: at least one joined row; distinct by case'
                   % (' (a 15% sample of the 2-input combinations for two key columns)' if quick else '', 'one seeded of the three' if quick else 'every one'),
                   exhaustive=False, scope='1-2 inputs x 17 choices each (all), 3-4 inputs sampled; all default subsets; expiry assignments over <= 4 keys (sampled when many)')
     import pyg_base                                     # noqa  imported before forking so that the children do not pay for it
     cases = list(all_cases(rng, quick))
     cases += list(fn_default_cases(rng, quick))         # drawn after every older draw: the older cases stay what they were for a given seed
+    cases += list(container_scalar_cases(rng, quick))
     size = 400
     chunks = [cases[i:i + size] for i in range(0, len(cases), size)]
     for chunk, (status, res) in zip(chunks, run_chunks(chunks, nproc=1 if quick else 12, timeout=180)):
